@@ -23,6 +23,8 @@ func checkC13(w *World, r *Report) {
 	r.Rule("R13.4", "close is identity-checked", 1)
 	r.Rule("R13.5", "session tables cover every identifier the wire format can carry", 2)
 	r.Rule("R13.6", "the client adopts a session identifier only from an error-free version answer", 1)
+	r.Rule("R13.9", "a retired session's record decides an answer only where the live slot is empty (identifiers are reused)", 1)
+	c13LiveSlotBeforeRetiredRecord(w, r)
 	r.Rule("R13.8", "a version answer names a session created for that very request (never an existing one looked up by address)", 1)
 	c13VersionAnswersNameFreshSessions(w, r)
 	r.Rule("R13.7", "no memory is recycled between requests of different sessions: what is taken from a sync.Pool never ends up in a decoded request, a parked packet or a stream", 1)
